@@ -71,6 +71,12 @@ def run_child(w, mod, plan, chspec, timeout=None):
     os.close(rfd)
     code = 0
     try:
+      if not os.environ.get('VERIF_DEBUG'):
+        # CPython prints "deallocated bytearray object has exported buffers" and
+        # similar diagnostics for some garbage pickles; harness errors travel in
+        # the result, so the child's stderr carries nothing we need
+        dn = os.open(os.devnull, os.O_WRONLY)
+        os.dup2(dn, 2)
       ch = Choices(seed=chspec.get('seed'), explicit=chspec.get('explicit'),
                    p_preempt=chspec.get('p_preempt', 0.0), p_tie=chspec.get('p_tie', 0.5),
                    pct_points=chspec.get('pct_points'))
